@@ -70,8 +70,20 @@ class Unsubclassable(Exception, metaclass=_NoSub):
   pass
 
 
+def _make_twin():
+  class Twin(Exception):
+    """Factory-made class: every call yields a distinct class with the same module and qualname."""
+  Twin.__qualname__ = 'Twin'
+  return Twin
+
+
+TwinA = _make_twin()
+TwinB = _make_twin()
+
 SHAPES = {
     'ValueError': lambda: ValueError('boom value'),
+    'TwinA': lambda: TwinA('twin a'),
+    'TwinB': lambda: TwinB('twin b'),
     'KeyError': lambda: KeyError('missing-key'),
     'CustomInit': lambda: CustomInit(7, 'custom detail'),
     'StrOverride': lambda: StrOverride('a', 'b'),
@@ -81,7 +93,7 @@ SHAPES = {
     'BaseOnly': lambda: BaseOnly('base only'),
     'Unsubclassable': lambda: Unsubclassable('no subclass'),
 }
-WRAPPABLE = [s for s in SHAPES if s not in ('BaseOnly', 'Unsubclassable')]
+WRAPPABLE = ['TwinA', 'TwinB', 'ValueError', 'TwinA', 'CustomInit', 'TwinB']
 
 
 class BadRepr:
@@ -96,6 +108,8 @@ class Ctl:
     self.log = []
     self.fail = set()
     self.nest = set()
+    self.swallow = set()          # nodes whose callable tries nested builds and swallows the rejection
+    self.swallowed = []           # outcome of each swallowed nested attempt
     self.shape = 'ValueError'
     self.last_exc = None
 
@@ -108,6 +122,15 @@ def make_fn(node_id, ctl):
       raise ctl.last_exc
     if node_id in ctl.nest:
       fdl.build(fdl.Config(H.f1, s1=1))
+    if node_id in ctl.swallow:
+      for _ in range(3):
+        try:
+          fdl.build(fdl.Config(H.f1, s1=1))
+          ctl.swallowed.append('accepted')
+        except ValueError:
+          ctl.swallowed.append('rejected')
+        except Exception as e:  # pylint: disable=broad-except
+          ctl.swallowed.append('other:' + type(e).__name__)
     return pool.Inst(1, {'s1': s1, 's2': s2, 's3': s3})
   node_fn.__qualname__ = f'node_fn_{node_id}'
   H.FN_ID[id(node_fn)] = 1
@@ -255,10 +278,25 @@ def check_heap(rec, rot):
     if not quick or (rot + node) % 3 == 0:
       mism += check_case(rec, objs, root, ctl, node, 'ValueError', diag, nested=True)
       ncases += 1
+    # a callable that swallows the rejection of its nested fdl.build and tries again:
+    # every attempt made while the outer build runs must be rejected
+    if (rot + node) % 2 == 0 or not quick:
+      ctl.fail, ctl.nest, ctl.swallow, ctl.swallowed = set(), set(), {node}, []
+      out, r = attempt(root, ctl)
+      ncases += 1
+      if out != 'ok' or ctl.swallowed != ['rejected'] * 3:
+        mism.append(({'clause': 'nested-build-accepted', 'exc_shape': 'nested-swallowed',
+                      'diag': diag, 'observed': ','.join(ctl.swallowed) or out},
+                     f'nested attempts inside node {node}: {ctl.swallowed}, outer build {out}'))
+      ctl.swallow = set()
+      out, r = attempt(root, ctl)
+      if out != 'ok':
+        mism.append(({'clause': 'next-build-fails', 'exc_shape': 'nested-swallowed', 'diag': diag,
+                      'observed': 'raise'}, f'build after swallowed nested attempts: {r!r}'))
     # repeated failures in sequence, then a good build
     if (rot + node) % 7 == 0:
       for k in range(3):
-        mism += check_case(rec, objs, root, ctl, node, WRAPPABLE[k % len(WRAPPABLE)], diag, False)
+        mism += check_case(rec, objs, root, ctl, node, WRAPPABLE[(rot + k) % len(WRAPPABLE)], diag, False)
         ncases += 1
     for i in list(H.FN_ID):
       pass
